@@ -543,7 +543,7 @@ theorem sim_unpack (names : List Expr) :
     refine post_ite (fun _ => post_fail _ hwf1) (fun _ => ?_)
     have hC1 := hC.mono hle1 hwf1
     generalize (List.filterMap (fun v => match v with | .str s => some s | _ => none) ns) = strs
-    generalize (if xs.length < strs.length + 1 then e else none) = cond
+    generalize (if strs.length = 0 || xs.length < strs.length + 1 then e else none) = cond
     cases cond with
     | some er => exact post_child hwf1 hC1 (fun s2 F hwf2 _ _ => post_fail _ hwf2)
     | none =>
